@@ -582,7 +582,8 @@ func (g *aspGen) strExpr(d int) ex {
 		case 9:
 			e = method(s, "rjust", strconv.Itoa(g.n(0, 8, "width")))
 		case 10:
-			e = method(s, "strip")
+			// (strip() without a cutset is not documented: docs/lexicon.html only has strip(cutset))
+			e = method(s, "strip", `" \n"`)
 		default:
 			// join of a list of strings
 			l := g.derange(g.listExpr(AspListOf(tStr), d-1))
